@@ -617,4 +617,88 @@ theorem crossCheckRow_witness_eq (n : Nat) (dR : List Val) (hr : dR.length = n) 
     rw [this]
     tauto
 
+/-! ## The whole row -/
+
+theorem mem_ICcols (thr : ℚ) (m : Nat → Nat) (dL dR : List Val) (c : Nat) :
+    c ∈ ICcols thr m dL dR ↔
+      c < dL.length ∧ validC m c = true ∧ (inB dL c = false ∨ (distE dL dR c).gt thr = true) := by
+  simp only [ICcols, List.mem_append, List.mem_filter, List.mem_range, Bool.and_eq_true, Bool.not_eq_true']
+  cases inB dL c <;> simp <;> tauto
+
+theorem room_for_bits (f : Nat) (hf : f < 65536) (hv : Flags.isInvalid f = false) : f + 768 < 65536 := by
+  obtain ⟨h8, h9⟩ := C07.valid_bits_clear f hv
+  simp only [bitAt] at h8 h9
+  omega
+
+theorem flag_pointwise (P : Params) (dL dR : List Val) (m : Nat → Nat) (c : Nat) (hc : c < dL.length) :
+    (if c ∈ ICcols P.threshold m dL dR then
+        m c + 256 + 512 * comp dL.length dR c (arange P.dmin P.dmax) - 256 * comp dL.length dR c (arange P.dmin P.dmax)
+      else m c) = (ccPixel .ruleFix P dL.length dL dR c (m c)).flag := by
+  obtain ⟨qo, hq⟩ : ∃ qo, colRight c (dL.getD c Val.nan) = qo := ⟨_, rfl⟩
+  obtain ⟨b, hb⟩ : ∃ b, Flags.isInvalid (m c) = b := ⟨_, rfl⟩
+  simp only [mem_ICcols, hc, true_and, validC, inB, qOf, distE, ccPixel, ccInside, ccOutside, Flags.occlusion, Flags.mismatch,
+    hq, hb]
+  cases b <;> rcases qo with _ | q <;> simp [insideRight]
+  all_goals (try (split_ifs <;> simp_all))
+  all_goals (try omega)
+
+theorem conf_pointwise (P : Params) (dL dR : List Val) (m : Nat → Nat) (c : Nat) :
+    confModel m dL dR c = confFl (ccPixel .ruleFix P dL.length dL dR c (m c)).conf := by
+  obtain ⟨qo, hq⟩ : ∃ qo, colRight c (dL.getD c Val.nan) = qo := ⟨_, rfl⟩
+  obtain ⟨b, hb⟩ : ∃ b, Flags.isInvalid (m c) = b := ⟨_, rfl⟩
+  simp only [confModel, validC, inB, qOf, distE, ccPixel, ccInside, ccOutside, hq, hb]
+  have hnan : confFl Conf.nan = Fl.nan := rfl
+  cases b <;> rcases qo with _ | q <;> simp [insideRight, hnan]
+  all_goals (try (split_ifs <;> simp_all [hnan, confFl_toConf]))
+
+/-- **the row body regenerated from the source equals the hand model, for every row**: every row length up to 2^63 (column
+    indices are int64), every left / right disparity row of that length (NaN included), every uint16 flag row, every threshold
+    and every disparity interval — and none of the 42 shape / bounds / uint16 tests fails -/
+theorem crossCheckRow_generated_eq (P : Params) (dL dR : List Val) (mask : List Nat)
+    (hm : mask.length = dL.length) (hr : dR.length = dL.length) (hu : ∀ f ∈ mask, f < 65536)
+    (hn : dL.length ≤ 2 ^ 63) :
+    crossCheckRow mask (embedRow dL) (embedRow dR) (.fin P.threshold) (arange P.dmin P.dmax)
+      = .ok ((ccRow .ruleFix P dL dR mask).map (·.flag),
+             (ccRow .ruleFix P dL dR mask).map (fun o => confFl o.conf)) := by
+  have e : mask = (List.range dL.length).map (fun c => mask.getD c 0) := by
+    rw [← hm]; exact eq_map_range 0 mask
+  have hmu : ∀ c, c < dL.length → mask.getD c 0 < 65536 := by
+    intro c hc
+    have hc' : c < mask.length := by omega
+    apply hu
+    simp [List.getD_eq_getElem?_getD, hc']
+  have h1 := crossCheckRow_consistency_eq P.threshold dL dR (fun c => mask.getD c 0) hr hn
+  rw [← e] at h1
+  have h2 := crossCheckRow_witness_eq dL.length dR hr (arange P.dmin P.dmax)
+    ((List.range dL.length).map (confModel (fun c => mask.getD c 0) dL dR))
+    (ICcols P.threshold (fun c => mask.getD c 0) dL dR)
+  have h3 := crossCheckRow_flags_eq dL.length (fun c => mask.getD c 0)
+    ((List.range dL.length).map (confModel (fun c => mask.getD c 0) dL dR))
+    (ICcols P.threshold (fun c => mask.getD c 0) dL dR) (fun c => comp dL.length dR c (arange P.dmin P.dmax))
+    (by
+      intro c hc
+      rw [mem_ICcols] at hc
+      refine ⟨hc.1, room_for_bits _ (hmu c hc.1) ?_⟩
+      simpa [validC] using hc.2.1)
+    (by
+      intro c
+      rcases C07.comp_cases dL.length dR c (arange P.dmin P.dmax) with h | h <;> omega)
+  rw [← e] at h3
+  unfold crossCheckRow
+  rw [h1]
+  dsimp only
+  rw [h2]
+  dsimp only
+  rw [h3]
+  simp only [ccRow, List.map_map, Function.comp_def]
+  congr 1
+  refine Prod.ext ?_ ?_
+  · apply List.map_congr_left
+    intro c hc
+    exact flag_pointwise P dL dR (fun c => mask.getD c 0) c (List.mem_range.mp hc)
+  · apply List.map_congr_left
+    intro c hc
+    exact conf_pointwise P dL dR (fun c => mask.getD c 0) c
+
+
 end Pandora.C07Kernels
